@@ -1155,7 +1155,59 @@ fn build_net(run: u64, cfg: &Value, log: &Log) -> Net {
 	net
 }
 
+/// Structured schedule around "a message lost in a disconnection + an unrelated monitor update in
+/// flight when the peer's channel_reestablish arrives + completion afterwards" (C09 / C05).
+fn reest_script(rng: &mut StdRng, n: usize) -> Value {
+	let types = ["static", "anchors", "zerofee"];
+	let chan_type = types[rng.gen_range(0..3)];
+	let value = [100_000u64, 1_000_000][rng.gen_range(0..2)];
+	let push = value * 500;
+	let a = rng.gen_range(0..2usize);
+	let b = 1 - a;
+	let mut ops: Vec<Value> = Vec::new();
+	let mut npay = 0usize;
+	let warm = rng.gen_range(1..=3);
+	for _ in 0..warm { ops.push(json!({"op":"send","from":a,"to":b,"amt":"big"})); npay += 1; }
+	if rng.gen_bool(0.5) { ops.push(json!({"op":"send","from":b,"to":a,"amt":"big"})); npay += 1; }
+	ops.push(json!({"op":"deliver_all"}));
+	// a new update whose commitment dance is cut by the disconnection
+	match rng.gen_range(0..3) {
+		0 => { ops.push(json!({"op":"send","from":a,"to":b,"amt":"big"})); npay += 1; },
+		1 => { ops.push(json!({"op":"claim","pay":0})); },
+		_ => { ops.push(json!({"op":"send","from":b,"to":a,"amt":"justabove"})); npay += 1; },
+	}
+	for _ in 0..rng.gen_range(0..5) {
+		if rng.gen_bool(0.5) { ops.push(json!({"op":"deliver","from":a,"to":b})); } else { ops.push(json!({"op":"deliver","from":b,"to":a})); }
+	}
+	let slow = if rng.gen_bool(0.7) { b } else { a };
+	let when_slow = rng.gen_range(0..2);
+	if when_slow == 0 { ops.push(json!({"op":"persist_mode","node":slow,"mode":"inprogress"})); }
+	ops.push(json!({"op":"disconnect","a":0,"b":1}));
+	if when_slow == 1 { ops.push(json!({"op":"persist_mode","node":slow,"mode":"inprogress"})); }
+	// an unrelated update while disconnected (a learned preimage, a failure)
+	let k = rng.gen_range(0..npay.max(1));
+	ops.push(json!({"op": if rng.gen_bool(0.8) {"claim"} else {"fail"}, "pay": k}));
+	let complete_at = rng.gen_range(0..4);
+	if complete_at == 0 { ops.push(json!({"op":"complete","node":slow,"which":"all"})); }
+	ops.push(json!({"op":"reconnect","a":0,"b":1}));
+	for _ in 0..rng.gen_range(0..4) {
+		if rng.gen_bool(0.5) { ops.push(json!({"op":"deliver","from":a,"to":b})); } else { ops.push(json!({"op":"deliver","from":b,"to":a})); }
+	}
+	if complete_at == 1 { ops.push(json!({"op":"complete","node":slow,"which": if rng.gen_bool(0.5) {"oldest"} else {"all"}})); }
+	ops.push(json!({"op":"deliver_all"}));
+	if complete_at >= 2 { ops.push(json!({"op":"complete","node":slow,"which":"all"})); ops.push(json!({"op":"deliver_all"})); }
+	for i in 0..n { ops.push(json!({"op":"persist_mode","node":i,"mode":"completed"})); ops.push(json!({"op":"complete","node":i,"which":"all"})); }
+	ops.push(json!({"op":"reconnect","a":0,"b":1}));
+	ops.push(json!({"op":"deliver_all"}));
+	for k in 0..npay { ops.push(json!({"op": if rng.gen_bool(0.6) {"claim"} else {"fail"}, "pay":k})); }
+	for i in 0..n { ops.push(json!({"op":"complete","node":i,"which":"all"})); }
+	ops.push(json!({"op":"deliver_all"}));
+	ops.push(json!({"op":"proj","final":true}));
+	json!({"cfg":{"nodes":n,"chan_type":chan_type,"value":value,"push":push,"feerate":253,"deferred":false}, "ops":ops})
+}
+
 fn random_script(rng: &mut StdRng, n: usize, profile: &str) -> Value {
+	if profile == "asyncreest" { return reest_script(rng, n); }
 	let types = ["static", "anchors", "zerofee"];
 	let chan_type = types[rng.gen_range(0..3)];
 	let value = [100_000u64, 1_000_000, 2_000_000][rng.gen_range(0..3)];
